@@ -182,4 +182,117 @@ Section I64Agg.
     - destruct vs as [|a [|b vs']]; try congruence; simpl in E; try discriminate.
       intros H; inversion H; subst. split; [now left|repeat constructor; lia].
   Qed.
+  (** max: mirror image of min *)
+  Lemma fold_max_spec : forall l acc,
+      let m := fold_left (fun acc v => Z.max v acc) l acc in
+      (m = acc \/ In m l) /\ acc <= m /\ Forall (fun v => v <= m) l.
+  Proof.
+    induction l as [|x l IH]; intros acc; cbn [fold_left].
+    - repeat split; auto. lia.
+    - specialize (IH (Z.max x acc)). cbv zeta in IH |- *. destruct IH as ([A|A] & B & C).
+      + split; [|split; [lia|constructor; [lia|exact C]]].
+        destruct (Z.max_spec x acc) as [[_ M]|[_ M]]; rewrite A, M; [now left|right; now left].
+      + split; [right; now right|]. split; [lia|constructor; [lia|exact C]].
+  Qed.
+
+  Theorem agg_max_value vs r : Forall (fun v => in_i64 v = true) vs -> vs <> [] ->
+    agg_i64 AMax vs = Ok r -> In r vs /\ Forall (fun v => v <= r) vs.
+  Proof.
+    intros Hr Hne. simpl. destruct (1 <? length vs)%nat eqn:E.
+    - intros H; inversion H; subst; clear H.
+      assert (Hmin : Forall (fun v => i64_min <= v) vs).
+      { eapply Forall_impl; [|exact Hr]. intros v Hv. simpl in Hv. unfold in_i64 in Hv. apply andb_prop in Hv. destruct Hv as [H1 _]. now apply Z.leb_le. }
+      destruct (fold_max_spec vs i64_min) as ([A|A] & B & C); [|split; assumption].
+      split; [|exact C]. destruct vs as [|a vs']; [congruence|].
+      inversion C; subst. inversion Hmin; subst. left. rewrite A in *. lia.
+    - destruct vs as [|a [|b vs']]; try congruence; simpl in E; try discriminate.
+      intros H; inversion H; subst. split; [now left|repeat constructor; lia].
+  Qed.
+
+  (** lcm: the fold of Z.lcm over the magnitudes when it fits i64, Err otherwise (an intermediate that leaves u64
+      can only happen when the final value does not fit either: every prefix lcm divides the total) *)
+  Definition list_lcm (vs : list Z) : Z := fold_left Z.lcm (map Z.abs vs) 1.
+
+  Lemma quot_lcm a b : 0 < a -> 0 < b -> Z.quot a (Z.gcd a b) * b = Z.lcm a b.
+  Proof.
+    intros Ha Hb. pose proof (Z.gcd_nonneg a b) as Hg0.
+    assert (Hg : 0 < Z.gcd a b).
+    { destruct (Z.eq_dec (Z.gcd a b) 0) as [E|E]; [apply Z.gcd_eq_0_l in E; lia|lia]. }
+    rewrite Z.quot_div_nonneg by lia. unfold Z.lcm.
+    destruct (Z.gcd_divide_l a b) as [k Hk]. destruct (Z.gcd_divide_r a b) as [j Hj].
+    set (g := Z.gcd a b) in *.
+    assert (a / g = k) by (rewrite Hk at 1; apply Z.div_mul; lia).
+    assert (b / g = j) by (rewrite Hj at 1; apply Z.div_mul; lia).
+    rewrite H, H0. rewrite Z.abs_eq.
+    - clear H H0. transitivity (k * j * g); [rewrite Hj at 1; ring|]. symmetry. rewrite Hk at 1. ring.
+    - apply Z.mul_nonneg_nonneg; [lia|]. rewrite <- H0. apply Z.div_pos; lia.
+  Qed.
+
+  Lemma lcm_pos a b : 0 < a -> 0 < b -> 0 < Z.lcm a b.
+  Proof.
+    intros Ha Hb. pose proof (Z.lcm_nonneg a b). destruct (Z.eq_dec (Z.lcm a b) 0) as [E|E]; [|lia].
+    apply Z.lcm_eq_0 in E. lia.
+  Qed.
+
+  Lemma fold_lcm_ge ms : Forall (fun m => 0 < m) ms -> forall acc, 0 < acc -> acc <= fold_left Z.lcm ms acc.
+  Proof.
+    induction 1 as [|m ms Hm _ IH]; intros acc Ha; simpl; [lia|].
+    pose proof (lcm_pos acc m Ha Hm) as Hl. specialize (IH _ Hl).
+    assert (acc <= Z.lcm acc m).
+    { apply Z.divide_pos_le; [exact Hl|apply Z.divide_lcm_l]. }
+    lia.
+  Qed.
+
+  Lemma rfold_ulcm ms : Forall (fun m => 0 < m < 2 ^ 64) ms -> forall acc, 0 < acc <= u64_max ->
+    rfold ulcm acc ms = Ok (fold_left Z.lcm ms acc) \/
+    (rfold ulcm acc ms = Err /\ u64_max < fold_left Z.lcm ms acc).
+  Proof.
+    induction 1 as [|m ms Hm Hms IH]; intros acc Ha; simpl; [now left|].
+    unfold ulcm. replace (acc =? 0) with false by (symmetry; apply Z.eqb_neq; lia).
+    replace (m =? 0) with false by (symmetry; apply Z.eqb_neq; lia). simpl orb. cbv iota.
+    rewrite (ugcd_is_gcd acc m) by (unfold u64_max in *; lia). simpl.
+    rewrite (quot_lcm acc m) by lia.
+    pose proof (lcm_pos acc m (proj1 Ha) (proj1 Hm)) as Hl.
+    destruct (Z.lcm acc m <=? u64_max) eqn:E.
+    - apply Z.leb_le in E. apply IH. lia.
+    - apply Z.leb_gt in E. right. split; [reflexivity|].
+      assert (Hpos : Forall (fun x => 0 < x) ms) by (eapply Forall_impl; [|exact Hms]; simpl; intros; lia).
+      pose proof (fold_lcm_ge ms Hpos _ Hl). lia.
+  Qed.
+
+  Theorem agg_lcm_value vs : Forall (fun v => in_i64 v = true) vs ->
+    agg_i64 ALcm vs = if existsb (Z.eqb 0) (map Z.abs vs) then Ok 0 else of_option (fit (list_lcm vs)).
+  Proof.
+    intros Hr. simpl. destruct (existsb (Z.eqb 0) (map Z.abs vs)) eqn:Ez; [reflexivity|].
+    assert (Hms : Forall (fun m => 0 < m < 2 ^ 64) (map Z.abs vs)).
+    { rewrite Forall_forall. intros m Hm. apply in_map_iff in Hm. destruct Hm as (v & <- & Hv).
+      rewrite Forall_forall in Hr. specialize (Hr v Hv). unfold in_i64, i64_min, i64_max in Hr.
+      apply andb_prop in Hr. destruct Hr as [H1 H2]. apply Z.leb_le in H1, H2.
+      assert (Z.abs v <> 0).
+      { intros E0. assert (existsb (Z.eqb 0) (map Z.abs vs) = true); [|congruence].
+        apply existsb_exists. exists (Z.abs v). split; [now apply in_map|now rewrite E0]. }
+      assert (2 ^ 64 = 2 * 2 ^ 63) by reflexivity. lia. }
+    destruct (rfold_ulcm _ Hms 1) as [E|[E Hbig]]; [unfold u64_max; lia| |].
+    - unfold list_lcm. now rewrite E.
+    - unfold list_lcm. rewrite E. simpl. unfold fit, in_i64, i64_max.
+      replace (fold_left Z.lcm (map Z.abs vs) 1 <=? 2 ^ 63 - 1) with false; [now rewrite andb_false_r|].
+      symmetry. apply Z.leb_gt. unfold u64_max in Hbig. assert (2 ^ 64 = 2 * 2 ^ 63) by reflexivity. lia.
+  Qed.
+
+  Theorem agg_lcm_perm vs vs' : Forall (fun v => in_i64 v = true) vs -> Permutation vs vs' ->
+    agg_i64 ALcm vs = agg_i64 ALcm vs'.
+  Proof.
+    intros Hr P.
+    assert (Hr' : Forall (fun v => in_i64 v = true) vs').
+    { rewrite Forall_forall in *. intros x Hx. apply Hr. eapply Permutation_in; [symmetry; exact P|exact Hx]. }
+    rewrite (agg_lcm_value vs Hr), (agg_lcm_value vs' Hr').
+    assert (PM : Permutation (map Z.abs vs) (map Z.abs vs')) by now apply Permutation_map.
+    replace (existsb (Z.eqb 0) (map Z.abs vs')) with (existsb (Z.eqb 0) (map Z.abs vs)).
+    - destruct (existsb (Z.eqb 0) (map Z.abs vs)); [reflexivity|]. unfold list_lcm. f_equal. f_equal.
+      apply fold_left_perm; [|exact PM]. intros a b c. rewrite <- !Z.lcm_assoc. f_equal. apply Z.lcm_comm.
+    - clear -PM. induction PM; cbn [existsb]; auto.
+      + now rewrite IHPM.
+      + rewrite !orb_assoc. f_equal. apply orb_comm.
+      + congruence.
+  Qed.
 End I64Agg.
